@@ -530,6 +530,12 @@ def gen_enumrules(rng):
 
 
 def main():
+    if "--no-build" not in sys.argv:      # the harness must be the one of /repo's current working tree
+        sys.path.insert(0, os.path.join(HERE, "lib"))
+        import vcommon
+        ok, log = vcommon.build_implrun()
+        if not ok:
+            print("harness build failed: " + str(log)[-500:]); return 2
     args = [a for a in sys.argv[1:] if not a.startswith("--")]
     n = 20000
     for a in sys.argv[1:]:
